@@ -70,6 +70,11 @@ NEEDED = {
  'C03-12': 'vault-side clause: what leaves the liquidity vault on a withdraw / borrow is at most the position debit',
  'C04-10': 'isolated-tier matrix: owing bank X, borrow from bank Y for every ordered pair of three isolated-tier and three ordinary banks (isolated address above / below)',
  'C04-11': 'e-mode variant with the collateral tag requested twice, non-adjacent, in the first debt bank (falls back to the de-duplicated table when refused); second debt bank without a table',
+ 'C05-12': 'liquidator portfolio: its deposit in the debt bank backs a debt in a third bank, borrowed to the limit after the price steering',
+ 'C07-10': 'bankruptcy cases with the asset bank\'s oracle stale (the debt bank\'s fresh)',
+ 'C07-11': 'bankruptcy cases with the entitled key named in the signer slot but not signing',
+ 'C07-12': 'bankruptcy cases where the account owes a second bank as well',
+ 'C08-10': 'golden call of collect_bank_fees after the global fee wallet was rotated (group cache stale); the previous wallet\'s token account as a substitute (C19 caught it as it stood)',
  'C20-7': 'reserve-composition sweep: total liquidity = available + borrowed - fees with fees above the borrowed amount, fractional parts, through the real Kamino / Solend total-liquidity functions and conversions',
  'C08-7': '(caught by the sibling check C10: two start instructions in one transaction)',
  'C08-8': "C12 'nobody' cells: the permissionless staked-settings propagation aimed at ordinary banks",
